@@ -256,15 +256,21 @@ func vL2(mon int) {
 			args[i] = a
 		}
 	}
+	needSnap := mon&(monG2|monG5) != 0
 	var before [5]vKeySnap
-	for i, k := range vL2Keys {
-		before[i] = vSnapKey(cs, k)
+	if needSnap {
+		for i, k := range vL2Keys {
+			before[i] = vSnapKey(cs, k)
+		}
 	}
 	cs.ds.data.dirty = false
 	var r respValue
 	panicked, msg := vCatch(func() { r = vCmd(cs, args...) })
 	if mon&monG8 != 0 {
 		vAssert("G8-no-panic", !panicked)
+		if mon == monG8 && !panicked {
+			vAssert("G8-connection-still-served", vIsOK(vCmd(cs, "SET", "after", "1")))
+		}
 	}
 	if panicked {
 		vNote(msg)
@@ -272,9 +278,11 @@ func vL2(mon int) {
 	}
 	var after [5]vKeySnap
 	unchanged := true
-	for i, k := range vL2Keys {
-		after[i] = vSnapKey(cs, k)
-		unchanged = vAnd(unchanged, vSnapEq(before[i], after[i]))
+	if needSnap {
+		for i, k := range vL2Keys {
+			after[i] = vSnapKey(cs, k)
+			unchanged = vAnd(unchanged, vSnapEq(before[i], after[i]))
+		}
 	}
 	if mon&monG2 != 0 && vIsErr(r) {
 		vAssert("G2-error-reply-leaves-state-unchanged", unchanged)
@@ -291,3 +299,8 @@ func vL2(mon int) {
 }
 
 func VerifH_c06_l2() { vL2(monG2 | monG34 | monG8) }
+
+// VerifH_c13_l2: no command template, on any key type, with any 64-bit
+// number in its integer arguments, panics or allocates by a client number
+// (G8), and a second command on the same connection is answered afterwards.
+func VerifH_c13_l2() { vL2(monG8) }
